@@ -80,7 +80,7 @@ class C09(Prop):
         wf = [e[0] for e in gen.wellformed('quick', rng)]
         small = [b for b in wf if len(b) <= 24]
         out = []
-        for i in range(400 if tier == 'thorough' else 120):
+        for i in range(2000 if tier == 'thorough' else 120):
             k = 1 + rng.below(4)
             out.append(b''.join(rng.choice(small) for _ in range(k)))
         for b in small[:: (1 if tier == 'thorough' else 6)]: out.append(b)
